@@ -16,6 +16,17 @@ EXTRA_QUERIES = ['a.undefinedHelper(1) or true', 'limit(10) and a', 'now() > a',
                  'a.* == a[*]']          # witness of the recorded finding map-order (on the record whose a is an object)
 
 
+# documents for the xml() hop: plain, attributes, repeated elements, blank-padded text and indentation (what a
+# whitespace-trimming parser changes), the xml: attributes that steer parsers, declarations, CDATA, namespaces
+XML_DOCS = ['<r><b>1</b></r>', '<r><b x="2">1</b></r>', '<r><b>1</b><b>2</b></r>', '<r><b> 1 </b></r>', '<r>\n  <b> 1 </b>\n  <c>x y</c>\n</r>',
+            '<r xml:space="preserve"><b> 1 </b></r>', '<r xml:space="preserve">\n  <b>1</b>\n</r>', '<r xml:space="default"><b>1 </b></r>',
+            '<r xml:lang="en"><b>1</b></r>', '<?xml version="1.0" encoding="UTF-8"?><r><b>1</b></r>', '<r><b><![CDATA[ 1 ]]></b></r>',
+            '<a:r xmlns:a="u"><a:b>1</a:b></a:r>', '<r><b><c>1</c></b></r>', '<r><b/></r>', '<r> t <b>1</b> u </r>', '<r><b>\t1\n</b></r>']
+XML_QUERIES = ['redact("a.xml().r.b")', 'a.xml().r.b == "1" and redact("a.xml().r.b")', 'a.xml().r.b == "1"', 'a.xml().r.b == " 1 "',
+               'redact("a.xml().r")', 'redact("b.xml().r.b", "a.xml().r.b")', 'a.xml().r.b == "1" or b.xml().r.b == "1"',
+               'a.xml().r.c == "x y" and redact("a.xml().r.c")']
+
+
 def same(a, b):
     if a["c"] != b["c"] or a["t"] != b["t"]:
         return False
@@ -77,6 +88,10 @@ def run(ctx):
         chosen.append((kfl.render(q), [], kfl.query_paths(q)))
     for t in REDACT_QUERIES + EXTRA_QUERIES:
         chosen.append((t, [], [[('k', 'a')], [('k', 'b')], [('k', 'c'), ('k', 'k')]]))
+    xml_lines = []
+    for t in XML_QUERIES:
+        for _ in range(3 if quick else 20):
+            xml_lines.append([t] + [json.dumps({"a": rng.choice(XML_DOCS), "b": rng.choice(XML_DOCS), "c": rng.randint(0, 9)}) for _ in range(8)])
     ill = kfl.illtyped_queries(rng, "quick")
     for t in rng.sample(ill, 30 if quick else 600):
         chosen.append((t, [], [[('k', 'a')]]))
@@ -90,6 +105,7 @@ def run(ctx):
         while len(recs) < 8:
             recs.append(kfl.json_of(kfl.gen_record(rng, paths)))   # matching and failing records
         lines.append([t] + recs[:8])
+    lines += xml_lines
 
     t0 = time.time()
     res = kfl.run_cases(ctx, "reuse", lines, timeout=1800)
@@ -138,7 +154,7 @@ def run(ctx):
     # race detector (support)
     race = build_race(ctx)
     if race:
-        sub = rng.sample(lines, min(len(lines), 60 if quick else 400))
+        sub = rng.sample(lines, min(len(lines), 60 if quick else 400)) + rng.sample(xml_lines, min(len(xml_lines), 12 if quick else 80))
         enc = "\n".join("\t".join(kfl.hx(f) for f in l) for l in sub) + "\n"
         rc, out = vlib.sh([race, "reuse"], inp=enc.encode(), timeout=1200, env=vlib.env_with_go(), cwd=ctx.work)
         nrace = out.count("WARNING: DATA RACE")
